@@ -21,7 +21,7 @@ ASSUMPTIONS = [
     "in-flight and ready are the scheduler's knowledge: dispatched minus observed-done, dependencies observed done",
     "a quarter of the programs have activation flags; a wait is left unjudged (counted) only when a node downstream of a deactivated node is sequential (it could be the best candidate)",
 ]
-BUDGET = {"quick": {"shards": 4, "seconds": 40}, "thorough": {"shards": 16, "seconds": 420}}
+BUDGET = {"quick": {"shards": 8, "seconds": 40}, "thorough": {"shards": 16, "seconds": 420}}
 
 
 def _nt(case: Dict[str, Any], M: Model, stats: List[Dict[str, Any]]) -> bool:
